@@ -460,10 +460,22 @@ func buildHistory(rt *rapid.T, full bool) (*histBuilder, string) {
 					keys = append(keys, fmt.Sprintf("k%d", q))
 				}
 				ownerHash := hexsha("o" + home + hexsha(o0.Bech))
+				idList, keyList := strings.Join(ids, ","), strings.Join(keys, ",")
+				switch rapid.IntRange(0, 5).Draw(rt, "sloppyLists") { // lists as careless clients write them: stray commas, a key left out
+				case 0:
+					idList += ","
+					keys[rapid.IntRange(0, n-1).Draw(rt, "emptyKey")] = ""
+					keyList = strings.Join(keys, ",") + ","
+				case 1:
+					idList, keyList = idList+",", keyList+","
+				case 2:
+					keys[0] = ""
+					keyList = strings.Join(keys, ",")
+				}
 				if rapid.Bool().Draw(rt, "viewersOrEditors") {
-					b.send(o0, fttypes.NewMsgAddViewers(o0.Bech, strings.Join(ids, ","), strings.Join(keys, ","), home, ownerHash))
+					b.send(o0, &fttypes.MsgAddViewers{Creator: o0.Bech, ViewerIds: idList, ViewerKeys: keyList, Address: home, FileOwner: ownerHash})
 				} else {
-					b.send(o0, fttypes.NewMsgAddEditors(o0.Bech, strings.Join(ids, ","), strings.Join(keys, ","), home, ownerHash))
+					b.send(o0, &fttypes.MsgAddEditors{Creator: o0.Bech, EditorIds: idList, EditorKeys: keyList, Address: home, FileOwner: ownerHash})
 				}
 				if n >= 3 {
 					b.aclWithManyIDs = true
@@ -537,6 +549,11 @@ func buildHistory(rt *rapid.T, full bool) (*histBuilder, string) {
 					b.send(*signer, m)
 				}
 			}
+		}
+		if i == nBlocks-1 && rapid.Bool().Draw(rt, "fileWithoutMerkleRoot") {
+			// nothing obliges a client to name a merkle root: such a file is stored and paid for like any other (nobody can
+			// prove it, so it lives for one proof window - here it is posted in the last block)
+			b.send(b.owners[0], &storagetypes.MsgPostFile{Creator: b.owners[0].Bech, FileSize: 10, MaxProofs: 1, Note: "{}"})
 		}
 		if i == nBlocks-1 && rapid.IntRange(0, 9).Draw(rt, "leaveFormsOpen") < 7 {
 			// leave open forms behind: an attestation form and a report form about the same (prover, file)
